@@ -369,10 +369,10 @@ impl Prop for C10 {
         (40, 1200)
     }
     fn rule(&self) -> String {
-        "Enumerated part (every run): all ordered pairs of the 107-value boundary grid (0, +-1, +-2, +-(2^k-1), +-2^k, +-(2^k+1), k in {7,15,16,29..33,52..54,62..65,127,128}) x 14 binary operators x {literal operands (compile-time folding), opaque() operands (run time)}, shifts of every grid value by 17 counts (incl. negative), 11 unary/conversion/format operations per grid value, host alloc/unpack for i32/i64/u32/u64/usize/isize/BigInt. Random part: batches of operations on operands up to 256 bits, int(str, base) for bases 2..36 with signs/prefixes/invalid digits, int(float) on boundary floats. Oracle: CPython integers (independent of num-bigint); i128/BigInt range arithmetic for host conversions. evaluations = individual operation results compared. Non-trivial = an operand or the result is outside the 32-bit inline range, or the operation must fail; distinct = distinct (op, operands, mode).".into()
+        "Enumerated part (every run): all ordered pairs of the 107-value boundary grid (0, +-1, +-2, +-(2^k-1), +-2^k, +-(2^k+1), k in {7,15,16,29..33,52..54,62..65,127,128}) x 14 binary operators x {literal operands (compile-time folding), opaque() operands (run time)}, shifts of every grid value by 17 counts (incl. negative) and right shifts by 32 counts around 2^32..2^100, 11 unary/conversion/format operations per grid value, host alloc/unpack for i32/i64/u32/u64/usize/isize/BigInt. Random part: batches of operations on operands up to 256 bits, int(str, base) for bases 2..36 with signs/prefixes/invalid digits, int(float) on boundary floats. Oracle: CPython integers (independent of num-bigint); i128/BigInt range arithmetic for host conversions. evaluations = individual operation results compared. Non-trivial = an operand or the result is outside the 32-bit inline range, or the operation must fail; distinct = distinct (op, operands, mode).".into()
     }
     fn assumptions(&self) -> Vec<String> {
-        vec!["CPython int semantics are the mathematical reference (floor // and %, errors for zero divisor and negative shift)".into(), "shift counts are bounded by 300; float(int) beyond f64 range may fail (compared with CPython OverflowError)".into()]
+        vec!["CPython int semantics are the mathematical reference (floor // and %, errors for zero divisor and negative shift)".into(), "left-shift counts are bounded by 300 (right-shift counts go up to 2^100); float(int) beyond f64 range may fail (compared with CPython OverflowError)".into()]
     }
     fn has_exhaustive(&self) -> bool {
         true
@@ -417,6 +417,14 @@ impl Prop for C10 {
                 for c in SHIFT_COUNTS {
                     for op in ["<<", ">>"] {
                         batch.push(Item { op, a: g[i].clone(), b: Some(BigInt::from(*c)), runtime });
+                    }
+                }
+                // right shifts by counts that are themselves beyond 32 and 64 bits (result 0 or -1; left shifts by such
+                // counts would be astronomically large values and are not part of the domain)
+                for k in [32u32, 33, 40, 53, 63, 64, 65, 100] {
+                    for d in [0i32, 1, 8, -1] {
+                        let c = (BigInt::from(1) << k) + d;
+                        batch.push(Item { op: ">>", a: g[i].clone(), b: Some(c), runtime });
                     }
                 }
                 for op in UN_OPS {
